@@ -327,6 +327,108 @@ func runC02(w *World, r *Report) {
 		}
 	}
 
+	// ---- R-C02-5: compile-time substitution of a constant for a name
+	r.Rule("R-C02-5", "constant folding of names: every emission of Push <value of a named constant> in place of a Load is behind ego.compiler.constfold and behind the test that the name is not a local that shadows the constant (nonConstLocalNames)", 1)
+
+	if cp := w.pkg("internal/language/compiler"); cp == nil {
+		r.Anchor("R-C02-5", "package language/compiler")
+	} else {
+		opPush := lookupConstInt(bp, "Push")
+
+		nSub := 0
+
+		for _, fn := range w.srcFuncs(cp) {
+			// reads of c.constantValues[name] whose value is pushed
+			allInstrs(fn, func(in ssa.Instruction) {
+				if opPush == nil || emitOf(in) != *opPush {
+					return
+				}
+
+				call := in.(*ssa.Call)
+
+				fromConstTable := false
+
+				if len(call.Call.Args) >= 3 {
+					if sl, ok := call.Call.Args[2].(*ssa.Slice); ok {
+						if al, ok := sl.X.(*ssa.Alloc); ok {
+							for _, ref := range *al.Referrers() {
+								if ia, ok := ref.(*ssa.IndexAddr); ok {
+									for _, r2 := range *ia.Referrers() {
+										if st, ok := r2.(*ssa.Store); ok && derivesFrom(st.Val, func(v ssa.Value) bool {
+											lk, ok := v.(*ssa.Lookup)
+											if !ok {
+												return false
+											}
+
+											u, ok := lk.X.(*ssa.UnOp)
+											if !ok {
+												return false
+											}
+
+											fa, ok := u.X.(*ssa.FieldAddr)
+
+											return ok && fieldName(fa.X.Type(), fa.Field) == "constantValues"
+										}, nil) {
+											fromConstTable = true
+										}
+									}
+								}
+							}
+						}
+					}
+				}
+
+				if !fromConstTable {
+					return
+				}
+
+				nSub++
+
+				key := fnKey(fn) + "|constant substituted for a name"
+				if nSub > 1 {
+					key += "#" + sprintInt(nSub)
+				}
+
+				isFieldLoad := func(v ssa.Value, name string) bool {
+					u, ok := v.(*ssa.UnOp)
+					if !ok {
+						return false
+					}
+
+					fa, ok := u.X.(*ssa.FieldAddr)
+
+					return ok && fieldName(fa.X.Type(), fa.Field) == name
+				}
+
+				// remove the edges on which the name is known not to be a shadowing local: the push must become unreachable
+				shadowCuts := cutEdges(fn, func(f Fact) bool {
+					if f.Kind != "false" {
+						return false
+					}
+
+					lk, ok := f.V.(*ssa.Lookup)
+
+					return ok && isFieldLoad(lk.X, "nonConstLocalNames")
+				})
+
+				foldCuts := cutEdges(fn, func(f Fact) bool { return f.Kind == "true" && isFieldLoad(f.V, "constFold") })
+
+				switch {
+				case len(foldCuts) == 0 || instrReachableAfterCut(fn, in, foldCuts):
+					r.Violate("R-C02-5", key, w.pos(in.Pos()), "a constant is substituted for a name on a path where constant folding is switched off")
+				case len(shadowCuts) == 0 || instrReachableAfterCut(fn, in, shadowCuts):
+					r.Violate("R-C02-5", key, w.pos(in.Pos()), "a constant's value is substituted for a name without testing that the name is not a local variable shadowing the constant (nonConstLocalNames): a loop variable or var named like a package constant reads as the constant when folding is on")
+				default:
+					r.Discharge("R-C02-5", key, w.pos(in.Pos()), "behind constFold and !nonConstLocalNames[name]")
+				}
+			})
+		}
+
+		if nSub == 0 {
+			r.Anchor("R-C02-5", "Emit(Push, c.constantValues[name]) in package compiler")
+		}
+	}
+
 	// ---- R-C02-4
 	var enabled *ssa.Global
 
